@@ -494,7 +494,7 @@ func init() {
 		Explanation: "Decides the structural clause 'no unchecked dynamic-type assumption on client-derived values in parse/plan code, and the per-entry recover barriers exist': every non-comma-ok type assertion in the parse/plan region is dominated by a successful comma-ok test or has a construction-fixed dynamic type; (*table).insert and (*DB).mapPartitionRequest install recover() first and spawn nothing below; a rejected entry still advances the WAL offset.",
 		NotDecided:  []string{"panics from index/nil/arithmetic inside sqlparser, goexpr, bytemap on arbitrary bytes (no barrier at sql.Parse, and none is added)", "semantic validation of arities beyond what produces a dynamic-type assumption", "replication stall if mapPartitionRequest panics (reading note: the recovered path sends no result; no panicking input was found)"},
 		Assumptions: []string{"the parse/plan region is closed under static calls and the listed plan-time interface methods"},
-		Rules:       []func(*Ctx){ruleC16a, ruleC16b},
+		Rules:       []func(*Ctx){ruleC16a, ruleC16b, ruleC16c},
 	})
 }
 
@@ -624,4 +624,51 @@ func isTestFn(fn *ssa.Function) bool {
 		fn = fn.Parent()
 	}
 	return false
+}
+
+// panickingAPIs: library entry points that panic on bad input; inside the
+// parse/plan region they may only receive constants.
+var panickingAPIs = map[string]bool{
+	"regexp.MustCompile":      true,
+	"regexp.MustCompilePOSIX": true,
+	"text/template.Must":      true,
+	"html/template.Must":      true,
+}
+
+func ruleC16c(c *Ctx) {
+	const rule = "C16.c"
+	c.describe(rule, "reg: inside the parse/plan region (plus package planner as a whole) panicking library constructors (regexp.MustCompile, template.Must) receive only compile-time constants; a pattern assembled from client text must go through the error-returning form")
+	R := parseRegion(c)
+	for _, fn := range c.P.ModFns {
+		if p := pkgOf(fn); p == "z/planner" || p == "z/sql" {
+			R[fn] = true
+		}
+	}
+	n := 0
+	nErrForm := 0
+	var fns []*ssa.Function
+	for f := range R {
+		fns = append(fns, f)
+	}
+	sort.Slice(fns, func(i, j int) bool { return fns[i].Pos() < fns[j].Pos() })
+	for _, f := range fns {
+		for _, call := range calls(f) {
+			cn := calleeName(call)
+			if cn == "regexp.Compile" {
+				nErrForm++
+			}
+			if !panickingAPIs[cn] {
+				continue
+			}
+			n++
+			_, isConst := constString(call.Common().Args[0])
+			c.check(rule, stableName(f)+" -> "+cn, call.Pos(), isConst, "argument is a compile-time constant", "a panicking constructor receives a value computed at run time (client-derived text): malformed input panics in planning instead of returning an error")
+		}
+	}
+	// positive control: the error-returning form is in use in the region
+	if nErrForm == 0 && n == 0 {
+		c.undecided(rule, "regexp use in the planner", token.NoPos, "neither regexp.Compile nor a panicking constructor found in the region: the rule matches nothing (rule table out of date?)")
+	} else if n == 0 {
+		c.ok(rule, "no panicking constructor in the region", token.NoPos, itoa(nErrForm)+" regexp.Compile call(s) use the error-returning form")
+	}
 }
